@@ -51,7 +51,7 @@ def strategy(stratum, tier):
                 No=st.just(No),
                 Nn=st.just(Nn),
                 C=st.just(C),
-                L=gens.st_L(),
+                L=gens.st_L(extreme=True),
                 idx=st.sampled_from(["ij", "ij", "xy"]),
                 oddball_zero=st.booleans(),
                 state=gens.st_trig(C, D, kmax, 1, 5),
